@@ -3,7 +3,7 @@
 # Confirms a seeded change in a scratch worktree of /repo (applies, builds, vets, repo tests pass, the
 # demonstration fails with the change and passes without it) and files it under /verif/seeded/<name>/.
 set -u
-src="$1"; name="$2"; prop="$3"; needs="${4:-}"
+src="$1"; name="$2"; prop="$3"; needs="${4:-}"; tags="${5:-}"
 export GOFLAGS=-mod=mod GOPROXY=off GOSUMDB=off GOTOOLCHAIN=local
 wt=/tmp/seedconfirm.$$
 git -C /repo worktree add -q "$wt" HEAD || exit 2
@@ -15,9 +15,9 @@ b=ok; go build ./... >/dev/null 2>&1 || b=FAIL
 v=ok; go vet ./... >/dev/null 2>&1 || v=FAIL
 t=ok; go test -vet=off -count=1 ./... >/dev/null 2>&1 || t=FAIL
 cp "$src/demo_test.go" "$pkg/zz_demo_test.go"
-dw=FAILS; go test -vet=off -count=1 -run Demo "./$pkg/" >/dev/null 2>&1 && dw=passes
+dw=FAILS; go test $tags -vet=off -count=1 -run Demo "./$pkg/" >/dev/null 2>&1 && dw=passes
 git apply -R "$src/patch.diff"
-dwo=passes; go test -vet=off -count=1 -run Demo "./$pkg/" >/dev/null 2>&1 || dwo=FAILS
+dwo=passes; go test $tags -vet=off -count=1 -run Demo "./$pkg/" >/dev/null 2>&1 || dwo=FAILS
 rm -f "$pkg/zz_demo_test.go"
 echo "$name: build=$b vet=$v repo-tests=$t demo-with-change=$dw demo-without=$dwo"
 if [ "$b$v$t$dw$dwo" = "okokokFAILSpasses" ]; then
